@@ -6,6 +6,10 @@
 //   d     drop the server                             x<k> a new client tries to connect (retries up to 1 s for a refusal)
 //   a     answer every held request; the clients read  p   does the UNIX socket path still exist
 //   w<ms> sleep
+//   C<k>  client k connects and sends two pipelined requests, GET /k and GET /q<k> (the second one stays queued
+//         while the application holds the first)
+//   l     is the server's listening socket still open (as the kernel reports it in /proc/net/unix or /proc/net/tcp;
+//         polled for up to 1 s)
 // observation: the results of x / p / a in script order, e.g.  x9=refused p=gone a=1:200,2:200
 use std::io::{Read, Write};
 use std::time::{Duration, Instant};
@@ -30,10 +34,13 @@ pub fn run_case(f: &[&str]) -> String {
     let mut held: Vec<Request> = Vec::new();
     let mut out: Vec<String> = Vec::new();
     for op in ops {
-        if let Some(k) = op.strip_prefix('c') {
+        if let Some(k) = op.strip_prefix('c').or_else(|| op.strip_prefix('C')) {
             match connect(1000) {
                 Ok(mut c) => {
                     let _ = c.write_all(format!("GET /{} HTTP/1.1\r\nHost: h\r\n\r\n", k).as_bytes());
+                    if op.starts_with('C') {
+                        let _ = c.write_all(format!("GET /q{} HTTP/1.1\r\nHost: h\r\n\r\n", k).as_bytes());
+                    }
                     clients.push((k.to_string(), c));
                 }
                 Err(e) => out.push(format!("c{}=failed:{}", k, e)),
@@ -76,6 +83,16 @@ pub fn run_case(f: &[&str]) -> String {
                 }
             }
             out.push(format!("x{}={}", k, res));
+        } else if op == "l" {
+            let t0 = Instant::now();
+            let mut open = true;
+            while open && t0.elapsed() < Duration::from_millis(1000) {
+                open = listener_open(kind, &path, addr.map(|a| a.port()));
+                if open {
+                    std::thread::sleep(Duration::from_millis(10));
+                }
+            }
+            out.push(format!("l={}", if open { "listening" } else { "closed" }));
         } else if op == "p" {
             out.push(format!("p={}", if kind == "t" { "na" } else if path.exists() { "there" } else { "gone" }));
         } else if op == "a" {
@@ -120,5 +137,25 @@ pub fn run_case(f: &[&str]) -> String {
         "-".to_string()
     } else {
         out.join(" ")
+    }
+}
+
+/// Does the kernel still list a listening socket bound to the server's address?
+fn listener_open(kind: &str, path: &std::path::Path, port: Option<u16>) -> bool {
+    if kind == "t" {
+        let want = format!("0100007F:{:04X}", port.unwrap_or(0));
+        let t = std::fs::read_to_string("/proc/net/tcp").unwrap_or_default();
+        t.lines().skip(1).any(|l| {
+            let f: Vec<&str> = l.split_whitespace().collect();
+            f.len() > 3 && f[1] == want && f[3] == "0A"
+        })
+    } else {
+        let want = path.to_string_lossy().to_string();
+        let t = std::fs::read_to_string("/proc/net/unix").unwrap_or_default();
+        t.lines().skip(1).any(|l| {
+            let f: Vec<&str> = l.split_whitespace().collect();
+            // Num RefCount Protocol Flags Type St Inode Path ; __SO_ACCEPTCON = 0x10000 marks a listening socket
+            f.len() > 7 && f[7] == want && u32::from_str_radix(f[3], 16).map(|x| x & 0x10000 != 0).unwrap_or(false)
+        })
     }
 }
